@@ -29,7 +29,7 @@ theorem lookup_insert_other (k k' : String) (v : J) (l : List (String × J)) (h 
       have : ¬ k2 = k' := fun e => h e.symm
       simp [J.insert, J.lookup, this]
     · by_cases h3 : k2 = k'
-      · simp [J.insert, J.lookup, h2, h3]
+      · subst h3; simp [J.insert, J.lookup, h2]
       · simp [J.insert, J.lookup, h2, h3, ih]
 
 theorem lookup_erase_same (k : String) (l : List (String × J)) : lookup k (erase k l) = none := by
@@ -52,7 +52,7 @@ theorem lookup_erase_other (k k' : String) (l : List (String × J)) (h : k' ≠ 
       have : ¬ k2 = k' := fun e => h e.symm
       simp [J.erase, J.lookup, this, ih]
     · by_cases h3 : k2 = k'
-      · simp [J.erase, J.lookup, h2, h3]
+      · subst h3; simp [J.erase, J.lookup, h2]
       · simp [J.erase, J.lookup, h2, h3, ih]
 
 /-! ### prefix test -/
@@ -130,9 +130,9 @@ theorem not_pre_snoc_of_pre (p q : List String) (k : String) (h : pre q p = true
     | cons b q =>
       simp only [List.cons_append, pre_cons_cons] at h ⊢
       by_cases e : a = b
-      · have e' : b = a := e.symm
-        simp [e, e'] at h ⊢
-        exact ih q (by simpa [e'] using h)
+      · subst e
+        simp only [if_true] at h ⊢
+        exact ih q h
       · simp [e]
 
 /-! ### leaf functions -/
